@@ -545,54 +545,75 @@ Proof.
       exists id. split; [rewrite (Hg id v E2); reflexivity|apply Hdom; congruence].
 Qed.
 
+Lemma NoDup_app_intro {A} (a b : list A) :
+  NoDup a -> NoDup b -> (forall x, In x a -> In x b -> False) -> NoDup (a ++ b).
+Proof.
+  intros Ha Hb Hd. induction Ha as [|x a Hx Ha IH]; [exact Hb|].
+  cbn [app]. constructor.
+  - intros Hin. apply in_app_or in Hin as [Hin|Hin]; [contradiction|]. apply (Hd x); [left; reflexivity|exact Hin].
+  - apply IH. intros y Hy. apply Hd. right; exact Hy.
+Qed.
+
 (* ================================================================= Redis *)
 Definition odef {A} (d : A) (o : option A) : A := match o with Some x => x | None => d end.
 
-Definition redis_rep (s : rstate) (r : rstore) (id : N) : Prop :=
+(* orph: the half-written entries (a writer died between the HSETNX of the
+   envelope and the pipeline): hashes with the envelope field only, for ids the
+   reference store does not know *)
+Definition orphan_hash (e : envelope) : rhash := mkHash (Some e) None None None.
+
+Definition redis_rep (orph : amap N envelope) (s : rstate) (r : rstore) (id : N) : Prop :=
   match rlookup r id with
-  | Some en => exists e ts att dl,
+  | Some en => alookup N.eqb orph id = None /\ exists e ts att dl,
       alookup N.eqb (r_hashes s) id = Some (mkHash (Some e) (Some ts) att dl) /\
       accum_entry e ts (odef 0 att) (odef [] dl) = Some en
-  | None => alookup N.eqb (r_hashes s) id = None
+  | None => alookup N.eqb (r_hashes s) id = option_map orphan_hash (alookup N.eqb orph id)
   end.
 
-Record RRedis (s : rstate) (r : rstore) : Prop := {
+Record RRedisO (orph : amap N envelope) (s : rstate) (r : rstore) : Prop := {
   rr_ref : ref_ok r;
   rr_nodup : NoDup (akeys (r_hashes s));
-  rr_rep : forall id, redis_rep s r id }.
+  rr_orph : NoDup (akeys orph);
+  rr_rep : forall id, redis_rep orph s r id }.
+
+Notation RRedis := (RRedisO []).
 
 Lemma RRedis_init : RRedis redis_init [].
-Proof. split; [constructor|constructor|intros id; reflexivity]. Qed.
+Proof. split; [constructor|constructor|constructor|intros id; reflexivity]. Qed.
 
-Lemma redis_view_rep s r id : RRedis s r -> redis_view s id = rlookup r id.
+Lemma redis_view_rep orph s r id : RRedisO orph s r -> redis_view s id = rlookup r id.
 Proof.
-  intros H. pose proof (rr_rep s r H id) as Hr. unfold redis_rep in Hr. unfold redis_view.
+  intros H. pose proof (rr_rep orph s r H id) as Hr. unfold redis_rep in Hr. unfold redis_view.
   destruct (rlookup r id) as [en|].
-  - destruct Hr as (e & ts & att & dl & Hh & Ha). rewrite Hh. unfold accum_entry in Ha.
+  - destruct Hr as (_ & e & ts & att & dl & Hh & Ha). rewrite Hh. unfold accum_entry in Ha.
     destruct dl as [l|]; cbn [odef] in Ha.
     + destruct (accum_get l (e_rcpts e)); [|discriminate]. destruct att; exact Ha.
     + unfold accum_get in Ha. rewrite replay_nil, with_rcpts_same in Ha. destruct att; exact Ha.
-  - rewrite Hr. reflexivity.
+  - rewrite Hr. destruct (alookup N.eqb orph id); reflexivity.
 Qed.
 
-Lemma redis_rep_other s s' r r' id :
+Lemma redis_rep_other orph s s' r r' id :
   alookup N.eqb (r_hashes s') id = alookup N.eqb (r_hashes s) id -> rlookup r' id = rlookup r id ->
-  redis_rep s r id -> redis_rep s' r' id.
+  redis_rep orph s r id -> redis_rep orph s' r' id.
 Proof. unfold redis_rep. intros -> ->. tauto. Qed.
 
+Lemma live_not_orphan orph s r id en : RRedisO orph s r -> rlookup r id = Some en -> alookup N.eqb orph id = None.
+Proof. intros H E. pose proof (rr_rep orph s r H id) as Hr. unfold redis_rep in Hr. rewrite E in Hr. apply Hr. Qed.
+
 (* replacing the hash of one id and the reference entry of the same id *)
-Lemma RRedis_put s r id h en q :
-  RRedis s r ->
+Lemma RRedis_put orph s r id h en q :
+  RRedisO orph s r -> alookup N.eqb orph id = None ->
   (exists e ts att dl, h = mkHash (Some e) (Some ts) att dl /\ accum_entry e ts (odef 0 att) (odef [] dl) = Some en) ->
-  RRedis (mkRedis (aset N.eqb (r_hashes s) id h) q) (aset N.eqb r id en).
+  RRedisO orph (mkRedis (aset N.eqb (r_hashes s) id h) q) (aset N.eqb r id en).
 Proof.
-  intros H (e & ts & att & dl & -> & Ha). split; cbn [r_hashes].
-  - apply nnodup_set, (rr_ref s r H).
-  - apply nnodup_set, (rr_nodup s r H).
+  intros H Ho (e & ts & att & dl & -> & Ha). split; cbn [r_hashes].
+  - apply nnodup_set, (rr_ref orph s r H).
+  - apply nnodup_set, (rr_nodup orph s r H).
+  - apply (rr_orph orph s r H).
   - intros j. unfold redis_rep, rlookup. cbn [r_hashes]. rewrite !nget_set.
     destruct (N.eqb_spec id j) as [<-|Hne].
-    + exists e, ts, att, dl. split; [reflexivity|exact Ha].
-    + apply (rr_rep s r H j).
+    + split; [exact Ho|]. exists e, ts, att, dl. split; [reflexivity|exact Ha].
+    + apply (rr_rep orph s r H j).
 Qed.
 
 Lemma hget_live s id h : alookup N.eqb (r_hashes s) id = Some h -> hget s id = h.
@@ -600,8 +621,17 @@ Proof. unfold hget. intros ->. reflexivity. Qed.
 Lemma hget_dead s id : alookup N.eqb (r_hashes s) id = None -> hget s id = empty_hash.
 Proof. unfold hget. intros ->. reflexivity. Qed.
 
-Lemma r_write_run s r e ts cands :
-  RRedis s r ->
+(* what the operation must stay clear of while half-written entries exist *)
+Definition avoids (orph : amap N envelope) (o : op) : Prop :=
+  match o with
+  | OWrite _ _ cands _ => forall c, In c cands -> alookup N.eqb orph c = None   (* uuid4 does not draw their ids *)
+  | OGet id => alookup N.eqb orph id = None                                     (* get(orphan): see redis_get_orphan *)
+  | OLoad _ => orph = []                                                        (* load with orphans: see redis_load_with_orphans *)
+  | _ => True
+  end.
+
+Lemma r_write_run orph s r e ts cands :
+  RRedisO orph s r -> (forall c, In c cands -> alookup N.eqb orph c = None) ->
   run rexec (r_write e ts cands) s =
   match first_free r cands with
   | Some id => (mkRedis (aset N.eqb (aset N.eqb (r_hashes s) id (mkHash (Some e) None None None)) id
@@ -610,12 +640,13 @@ Lemma r_write_run s r e ts cands :
   | None => (s, RNoId)
   end.
 Proof.
-  intros H. induction cands as [|c cs IH]; cbn [r_write run first_free]; [reflexivity|].
-  pose proof (rr_rep s r H c) as Hc. unfold redis_rep in Hc.
+  intros H Hav. induction cands as [|c cs IH]; cbn [r_write run first_free]; [reflexivity|].
+  pose proof (rr_rep orph s r H c) as Hc. unfold redis_rep in Hc.
   destruct (rlookup r c) as [en|].
-  - destruct Hc as (e' & ts' & att & dl & Hh & _). cbn [rexec]. rewrite (hget_live s c _ Hh). cbn [h_env].
-    exact IH.
-  - cbn [rexec]. rewrite (hget_dead s c Hc). cbn [h_env empty_hash h_ts h_att h_deliv run rexec].
+  - destruct Hc as (_ & e' & ts' & att & dl & Hh & _). cbn [rexec]. rewrite (hget_live s c _ Hh). cbn [h_env].
+    apply IH. intros c' Hc'. apply Hav. right; exact Hc'.
+  - rewrite (Hav c (or_introl eq_refl)) in Hc. cbn [option_map] in Hc.
+    cbn [rexec]. rewrite (hget_dead s c Hc). cbn [h_env empty_hash h_ts h_att h_deliv run rexec].
     unfold hput, hget. cbn [r_hashes r_queue]. rewrite nget_set_same. reflexivity.
 Qed.
 
@@ -645,95 +676,178 @@ Lemma redis_load_queue_independent s q now :
   fst (run rexec (redis_prog (OLoad now)) s) = s.
 Proof. rewrite !redis_load_run. split; reflexivity. Qed.
 
-Lemma redis_step_sim s r o :
-  RRedis s r -> wf_op r o = true ->
-  RRedis (fst (redis_step s o)) (fst (ref_step r o)) /\ res_match (snd (redis_step s o)) (snd (ref_step r o)).
+(* load() with half-written entries present: it does not raise, changes
+   nothing, lists every live message with its timestamp and every half-written
+   entry with the current clock *)
+Lemma redis_load_with_orphans orph s r now :
+  RRedisO orph s r ->
+  fst (run rexec (redis_prog (OLoad now)) s) = s /\
+  exists l, snd (run rexec (redis_prog (OLoad now)) s) = RLoad l /\
+            Permutation l (map (fun p => (en_ts (snd p), fst p)) r ++ map (fun p => (now, fst p)) orph).
 Proof.
-  intros H Hwf. destruct o; unfold redis_step; cbn [redis_prog ref_step].
+  intros H. rewrite redis_load_run. cbn [fst snd]. split; [reflexivity|]. eexists. split; [reflexivity|].
+  assert (Hdis : forall id, rlookup r id <> None -> alookup N.eqb orph id = None).
+  { intros id Hl. destruct (rlookup r id) as [en|] eqn:E; [|congruence]. eapply live_not_orphan; eassumption. }
+  apply NoDup_Permutation.
+  - apply (NoDup_map_inv snd). rewrite map_map. cbn [snd]. rewrite map_id. apply (rr_nodup orph s r H).
+  - apply (NoDup_map_inv snd). rewrite map_app, !map_map. cbn [snd].
+    apply NoDup_app_intro; [apply (rr_ref orph s r H)|apply (rr_orph orph s r H)|].
+    intros id H1 H2. change (In id (akeys r)) in H1. change (In id (akeys orph)) in H2.
+    apply nget_keys in H1. apply nget_keys in H2. apply H2. apply Hdis. exact H1.
+  - intros [t id]. rewrite in_app_iff, !in_map_iff.
+    pose proof (rr_rep orph s r H id) as Hr. unfold redis_rep, rlookup in Hr. split.
+    + intros (k & E & Hin). inversion E; subst k t. change (In id (akeys (r_hashes s))) in Hin. apply nget_keys in Hin.
+      destruct (alookup N.eqb r id) as [en|] eqn:Er.
+      * left. destruct Hr as (_ & e & ts0 & att & dl & Hh & Ha). exists (id, en). split; [|apply nget_In; exact Er].
+        cbn [fst snd]. unfold hget. rewrite Hh. cbn [h_ts odef].
+        destruct (accum_entry_fields _ _ _ _ _ Ha) as [-> _]. reflexivity.
+      * right. destruct (alookup N.eqb orph id) as [e|] eqn:Eo; [|cbn in Hr; congruence].
+        exists (id, e). split; [|apply nget_In; exact Eo].
+        cbn [fst snd]. unfold hget. rewrite Hr. reflexivity.
+    + intros [([k en] & E & Hin)|([k e] & E & Hin)]; cbn [fst snd] in E; inversion E; subst k t.
+      * pose proof (nIn_get _ _ _ _ (rr_ref orph s r H) Hin) as Er. rewrite Er in Hr.
+        destruct Hr as (_ & e & ts0 & att & dl & Hh & Ha). exists id. split.
+        -- unfold hget. rewrite Hh. cbn [h_ts odef]. destruct (accum_entry_fields _ _ _ _ _ Ha) as [-> _]. reflexivity.
+        -- change (In id (akeys (r_hashes s))). apply nget_keys. congruence.
+      * pose proof (nIn_get _ _ _ _ (rr_orph orph s r H) Hin) as Eo.
+        assert (Er : alookup N.eqb r id = None).
+        { destruct (alookup N.eqb r id) as [en|] eqn:Er; [|reflexivity].
+          rewrite (Hdis id) in Eo; [discriminate|unfold rlookup; congruence]. }
+        rewrite Er, Eo in Hr. cbn [option_map] in Hr. exists id. split.
+        -- unfold hget. rewrite Hr. reflexivity.
+        -- change (In id (akeys (r_hashes s))). apply nget_keys. congruence.
+Qed.
+
+(* get() of a half-written entry: the envelope with attempts 0 *)
+Lemma redis_get_orphan orph s r id e :
+  RRedisO orph s r -> alookup N.eqb orph id = Some e ->
+  run rexec (redis_prog (OGet id)) s = (s, RGot e 0).
+Proof.
+  intros H Eo. pose proof (rr_rep orph s r H id) as Hr. unfold redis_rep in Hr.
+  destruct (rlookup r id) as [en|]; [destruct Hr as [Hn _]; congruence|].
+  rewrite Eo in Hr. cbn [option_map] in Hr. cbn [redis_prog run rexec]. rewrite (hget_live s id _ Hr). reflexivity.
+Qed.
+
+(* the half-write itself: HSETNX of the envelope for an id nobody has *)
+Lemma redis_orphan_injection orph s r id e :
+  RRedisO orph s r -> rlookup r id = None -> alookup N.eqb orph id = None ->
+  RRedisO (aset N.eqb orph id e) (fst (rexec s (QHsetnxEnv id e))) r.
+Proof.
+  intros H Er Eo. pose proof (rr_rep orph s r H id) as Hid. unfold redis_rep in Hid. rewrite Er, Eo in Hid.
+  cbn [option_map] in Hid. cbn [rexec]. rewrite (hget_dead s id Hid). cbn [empty_hash h_env h_ts h_att h_deliv fst].
+  unfold hput. split; cbn [r_hashes].
+  - apply (rr_ref orph s r H).
+  - apply nnodup_set, (rr_nodup orph s r H).
+  - apply nnodup_set, (rr_orph orph s r H).
+  - intros j. pose proof (rr_rep orph s r H j) as Hr. unfold redis_rep in *. cbn [r_hashes]. rewrite !nget_set.
+    destruct (N.eqb_spec id j) as [<-|Hne].
+    + rewrite Er. reflexivity.
+    + exact Hr.
+Qed.
+
+Lemma redis_step_sim orph s r o :
+  RRedisO orph s r -> wf_op r o = true -> avoids orph o ->
+  RRedisO orph (fst (redis_step s o)) (fst (ref_step r o)) /\ res_match (snd (redis_step s o)) (snd (ref_step r o)).
+Proof.
+  intros H Hwf Hav. destruct o; unfold redis_step; cbn [redis_prog ref_step avoids] in *.
   - (* write *)
-    rewrite (r_write_run s r e ts cands H).
+    rewrite (r_write_run orph s r e ts cands H Hav).
     destruct (first_free r cands) as [id|] eqn:Ef; cbn [fst snd]; [|split; [exact H|reflexivity]].
     split; [|reflexivity].
     assert (E : aset N.eqb (aset N.eqb (r_hashes s) id (mkHash (Some e) None None None)) id (mkHash (Some e) (Some ts) (Some 0) None)
                 = aset N.eqb (r_hashes s) id (mkHash (Some e) (Some ts) (Some 0) None)).
     { unfold aset at 1 3. f_equal. unfold aset. cbn [adel]. rewrite N.eqb_refl.
       rewrite (del_absent N rhash N.eqb (adel N.eqb (r_hashes s) id) id); [reflexivity|apply nget_del_same]. }
-    rewrite E. apply RRedis_put; [exact H|].
+    rewrite E. apply RRedis_put; [exact H|apply Hav; apply (first_free_spec r cands id Ef)|].
     exists e, ts, (Some 0), None. split; [reflexivity|apply accum_entry_new].
   - (* set_timestamp *)
     cbn [wf_op] in Hwf. destruct (rlookup r id) as [en|] eqn:E; [|discriminate].
-    pose proof (rr_rep s r H id) as Hr. unfold redis_rep in Hr. rewrite E in Hr.
-    destruct Hr as (e & ts0 & att & dl & Hh & Ha).
+    pose proof (rr_rep orph s r H id) as Hr. unfold redis_rep in Hr. rewrite E in Hr.
+    destruct Hr as (Ho & e & ts0 & att & dl & Hh & Ha).
     cbn [run rexec fst snd]. rewrite (hget_live s id _ Hh). cbn [h_env h_ts h_att h_deliv]. unfold hput.
-    split; [|reflexivity]. apply RRedis_put; [exact H|].
+    split; [|reflexivity]. apply RRedis_put; [exact H|exact Ho|].
     exists e, ts, att, dl. split; [reflexivity|].
     rewrite (accum_entry_meta e ts0 _ _ en ts (odef 0 att) Ha).
     destruct (accum_entry_fields _ _ _ _ _ Ha) as [_ <-]. reflexivity.
   - (* increment_attempts *)
     cbn [wf_op] in Hwf. destruct (rlookup r id) as [en|] eqn:E; [|discriminate].
-    pose proof (rr_rep s r H id) as Hr. unfold redis_rep in Hr. rewrite E in Hr.
-    destruct Hr as (e & ts0 & att & dl & Hh & Ha).
+    pose proof (rr_rep orph s r H id) as Hr. unfold redis_rep in Hr. rewrite E in Hr.
+    destruct Hr as (Ho & e & ts0 & att & dl & Hh & Ha).
     cbn [run rexec fst snd]. rewrite (hget_live s id _ Hh). cbn [h_env h_ts h_att h_deliv]. unfold hput.
     destruct (accum_entry_fields _ _ _ _ _ Ha) as [Hts Hatt].
     assert (En : match att with Some a => a + 1 | None => 1 end = en_att en + 1).
     { rewrite Hatt. destruct att; reflexivity. }
-    rewrite En. split; [|reflexivity]. apply RRedis_put; [exact H|].
+    rewrite En. split; [|reflexivity]. apply RRedis_put; [exact H|exact Ho|].
     exists e, ts0, (Some (en_att en + 1)), dl. split; [reflexivity|].
     cbn [odef]. rewrite (accum_entry_meta e ts0 _ _ en ts0 (en_att en + 1) Ha). rewrite Hts. reflexivity.
   - (* set_recipients_delivered *)
     destruct (rlookup r id) as [en|] eqn:E; [|cbn [wf_op] in Hwf; rewrite E in Hwf; discriminate].
     destruct (wf_deliv_round r id idxs tmps en Hwf E) as (l & Hl). rewrite Hl.
-    pose proof (rr_rep s r H id) as Hr. unfold redis_rep in Hr. rewrite E in Hr.
-    destruct Hr as (e & ts0 & att & dl & Hh & Ha).
+    pose proof (rr_rep orph s r H id) as Hr. unfold redis_rep in Hr. rewrite E in Hr.
+    destruct Hr as (Ho & e & ts0 & att & dl & Hh & Ha).
     cbn [run rexec fst snd]. rewrite (hget_live s id _ Hh). cbn [h_env h_ts h_att h_deliv]. unfold hput.
     split; [|reflexivity].
     destruct (accum_entry_fields _ _ _ _ _ Ha) as [Hts Hatt].
-    apply RRedis_put; [exact H|].
+    apply RRedis_put; [exact H|exact Ho|].
     exists e, ts0, att, (Some (accum_mark (odef [] dl) idxs)). split.
     + destruct dl; reflexivity.
     + cbn [odef]. rewrite (accum_entry_mark e ts0 _ _ en idxs l Ha Hl). rewrite Hts, Hatt. reflexivity.
   - (* load, whatever is on the announcement list *)
-    pose proof (redis_load_run s now) as El. cbn [redis_prog] in El. rewrite El. clear El.
-    cbn [fst snd]. split; [exact H|].
-    cbn [res_match]. apply load_perm_ids; [apply (rr_nodup s r H)|apply (rr_ref s r H)| |].
-    + intros id. pose proof (rr_rep s r H id) as Hr. unfold redis_rep, rlookup in Hr.
-      rewrite <- nget_keys. destruct (alookup N.eqb r id) as [en|].
-      * destruct Hr as (e & ts0 & att & dl & Hh & _). split; [discriminate|intros _; congruence].
-      * rewrite Hr. tauto.
-    + intros id en E. pose proof (rr_rep s r H id) as Hr. unfold redis_rep, rlookup in Hr. rewrite E in Hr.
-      destruct Hr as (e & ts0 & att & dl & Hh & Ha). unfold hget. rewrite Hh. cbn [h_ts odef].
-      destruct (accum_entry_fields _ _ _ _ _ Ha) as [Hts _]. congruence.
+    subst orph. destruct (redis_load_with_orphans [] s r now H) as (Es & l & El & Hp).
+    cbn [redis_prog] in Es, El. rewrite Es, El. split; [exact H|].
+    cbn [res_match map] in *. rewrite app_nil_r in Hp. exact Hp.
   - (* get *)
-    pose proof (rr_rep s r H id) as Hr. unfold redis_rep in Hr.
+    pose proof (rr_rep orph s r H id) as Hr. unfold redis_rep in Hr.
     cbn [run rexec fst snd]. destruct (rlookup r id) as [en|] eqn:E.
-    + destruct Hr as (e & ts0 & att & dl & Hh & Ha). rewrite (hget_live s id _ Hh). cbn [h_env h_att h_deliv].
+    + destruct Hr as (_ & e & ts0 & att & dl & Hh & Ha). rewrite (hget_live s id _ Hh). cbn [h_env h_att h_deliv].
       unfold accum_entry in Ha. destruct dl as [sc|]; cbn [odef] in Ha.
       * destruct (accum_get sc (e_rcpts e)); [|discriminate]. inversion Ha; subst en. cbn [run fst snd en_env en_att].
         split; [exact H|]. destruct att; reflexivity.
       * unfold accum_get in Ha. rewrite replay_nil, with_rcpts_same in Ha. inversion Ha; subst en.
         cbn [run fst snd en_env en_att]. split; [exact H|]. destruct att; reflexivity.
-    + rewrite (hget_dead s id Hr). cbn [empty_hash h_env run fst snd]. split; [exact H|reflexivity].
+    + rewrite Hav in Hr. cbn [option_map] in Hr.
+      rewrite (hget_dead s id Hr). cbn [empty_hash h_env run fst snd]. split; [exact H|reflexivity].
   - (* remove *)
+    cbn [wf_op] in Hwf. destruct (rlookup r id) as [en|] eqn:E; [|discriminate].
+    pose proof (live_not_orphan orph s r id en H E) as Ho.
     cbn [run rexec fst snd]. split; [|reflexivity]. split; cbn [r_hashes].
-    + apply nnodup_del, (rr_ref s r H).
-    + apply nnodup_del, (rr_nodup s r H).
+    + apply nnodup_del, (rr_ref orph s r H).
+    + apply nnodup_del, (rr_nodup orph s r H).
+    + apply (rr_orph orph s r H).
     + intros j. unfold redis_rep, rlookup. cbn [r_hashes]. rewrite !nget_del.
-      destruct (N.eqb_spec id j); [reflexivity|apply (rr_rep s r H j)].
+      destruct (N.eqb_spec id j) as [<-|Hne]; [rewrite Ho; reflexivity|apply (rr_rep orph s r H j)].
 Qed.
 
 Lemma redis_run_brun s ops : redis_run s ops = brun rstate redis_step s ops.
 Proof. revert s; induction ops as [|o ops IH]; intros s; cbn [redis_run brun]; [reflexivity|].
   destruct (redis_step s o) as [s1 x]. rewrite IH. reflexivity. Qed.
 
+Lemma oks_avoids orph s ops : Forall (avoids orph) ops -> oks rstate redis_step (fun _ o => avoids orph o) s ops.
+Proof. intros H; revert s; induction H as [|o ops Ho Hops IH]; intros s; cbn [oks]; [exact I|split; [exact Ho|apply IH]]. Qed.
+
+(* with half-written entries around, every operation that stays clear of them
+   still answers like the reference store, and they stay as they are *)
+Theorem refines_redis_orphans orph ops s r :
+  RRedisO orph s r -> wf_ops r ops = true -> Forall (avoids orph) ops ->
+  RRedisO orph (fst (redis_run s ops)) (fst (ref_run r ops)) /\
+  Forall2 res_match (snd (redis_run s ops)) (snd (ref_run r ops)).
+Proof.
+  intros HR Hwf Hav. rewrite redis_run_brun.
+  apply (run_sim rstate redis_step (RRedisO orph) (fun _ o => avoids orph o)); try assumption.
+  - intros s0 r0 o H1 H2 H3. apply redis_step_sim; assumption.
+  - apply oks_avoids. exact Hav.
+Qed.
+
+Lemma avoids_nil o : avoids [] o.
+Proof. destruct o; cbn; try exact I; try reflexivity; intros; reflexivity. Qed.
+
 Theorem refines_redis ops s r :
   RRedis s r -> wf_ops r ops = true ->
   RRedis (fst (redis_run s ops)) (fst (ref_run r ops)) /\
   Forall2 res_match (snd (redis_run s ops)) (snd (ref_run r ops)).
 Proof.
-  intros HR Hwf. rewrite redis_run_brun.
-  apply (run_sim rstate redis_step RRedis (fun _ _ => True)); try assumption.
-  - intros s0 r0 o H1 H2 _. apply redis_step_sim; assumption.
-  - apply oks_true.
+  intros HR Hwf. apply refines_redis_orphans; [exact HR|exact Hwf|].
+  apply Forall_forall. intros o _. apply avoids_nil.
 Qed.
 
 (* wait() only pops the announcement list: the hashes, hence every view and
@@ -741,39 +855,56 @@ Qed.
 Lemma redis_wait_hashes s : r_hashes (fst (run rexec redis_wait s)) = r_hashes s.
 Proof. cbn [redis_wait run rexec]. destruct (r_queue s) as [|x q]; reflexivity. Qed.
 
-Lemma RRedis_wait s r : RRedis s r -> RRedis (fst (run rexec redis_wait s)) r.
+Lemma RRedis_wait orph s r : RRedisO orph s r -> RRedisO orph (fst (run rexec redis_wait s)) r.
 Proof.
   intros H. pose proof (redis_wait_hashes s) as E.
-  split; [apply (rr_ref s r H)|rewrite E; apply (rr_nodup s r H)|].
-  intros id. eapply redis_rep_other; [rewrite E; reflexivity|reflexivity|apply (rr_rep s r H id)].
+  split; [apply (rr_ref orph s r H)|rewrite E; apply (rr_nodup orph s r H)|apply (rr_orph orph s r H)|].
+  intros id. eapply redis_rep_other; [rewrite E; reflexivity|reflexivity|apply (rr_rep orph s r H id)].
 Qed.
 
-(* results of the storage operations of a run with wait() calls in between *)
+(* results of the storage operations of a run with wait() calls and
+   half-writes in between *)
 Fixpoint op_results (its : list ritem) (xs : list res) : list res :=
   match its, xs with
   | RIop _ :: its', x :: xs' => x :: op_results its' xs'
   | RIwait :: its', _ :: xs' => op_results its' xs'
+  | RIorphan _ _ :: its', _ :: xs' => op_results its' xs'
   | _, _ => []
   end.
 
-Theorem refines_redis_items its : forall s r,
-  RRedis s r -> wf_ops r (ritem_ops its) = true ->
-  RRedis (fst (redis_run_items s its)) (fst (ref_run r (ritem_ops its))) /\
+(* the runs the theorem covers: operations well-formed and clear of the
+   half-written entries present at that moment; a half-write uses a fresh id *)
+Fixpoint items_wf (orph : amap N envelope) (r : rstore) (its : list ritem) : Prop :=
+  match its with
+  | [] => True
+  | RIop o :: its' => wf_op r o = true /\ avoids orph o /\ items_wf orph (fst (ref_step r o)) its'
+  | RIwait :: its' => items_wf orph r its'
+  | RIorphan id e :: its' => rlookup r id = None /\ alookup N.eqb orph id = None /\ items_wf (aset N.eqb orph id e) r its'
+  end.
+
+Theorem refines_redis_items its : forall orph s r,
+  RRedisO orph s r -> items_wf orph r its ->
+  (exists orph', RRedisO orph' (fst (redis_run_items s its)) (fst (ref_run r (ritem_ops its)))) /\
   Forall2 res_match (op_results its (snd (redis_run_items s its))) (snd (ref_run r (ritem_ops its))).
 Proof.
-  induction its as [|it its IH]; intros s r HR Hwf; cbn [redis_run_items ritem_ops].
-  - cbn [ref_run fst snd op_results]. split; [exact HR|constructor].
-  - destruct it as [o|]; cbn [ritem_step ritem_ops].
-    + cbn [wf_ops] in Hwf. apply andb_prop in Hwf as [Hw1 Hw2]. cbn [ref_run].
-      destruct (redis_step_sim s r o HR Hw1) as [HR1 Hm].
+  induction its as [|it its IH]; intros orph s r HR Hwf; cbn [redis_run_items ritem_ops].
+  - cbn [ref_run fst snd op_results]. split; [exists orph; exact HR|constructor].
+  - destruct it as [o| |id e]; cbn [ritem_step ritem_ops items_wf] in *.
+    + destruct Hwf as (Hw1 & Hav & Hw2). cbn [ref_run].
+      destruct (redis_step_sim orph s r o HR Hw1 Hav) as [HR1 Hm].
       destruct (redis_step s o) as [s1 x]. destruct (ref_step r o) as [r1 y]. cbn [fst snd] in *.
-      destruct (IH s1 r1 HR1 Hw2) as [HR2 Hms].
+      destruct (IH orph s1 r1 HR1 Hw2) as [HR2 Hms].
       destruct (redis_run_items s1 its) as [s2 xs]. destruct (ref_run r1 (ritem_ops its)) as [r2 ys].
       cbn [fst snd op_results] in *. split; [exact HR2|constructor; assumption].
-    + pose proof (RRedis_wait s r HR) as HR1.
+    + pose proof (RRedis_wait orph s r HR) as HR1.
       destruct (run rexec redis_wait s) as [s1 x]. cbn [fst] in HR1.
-      destruct (IH s1 r HR1 Hwf) as [HR2 Hms].
+      destruct (IH orph s1 r HR1 Hwf) as [HR2 Hms].
       destruct (redis_run_items s1 its) as [s2 xs]. cbn [fst snd op_results] in *. split; assumption.
+    + destruct Hwf as (Er & Eo & Hw2).
+      pose proof (redis_orphan_injection orph s r id e HR Er Eo) as HR1.
+      destruct (IH _ _ r HR1 Hw2) as [HR2 Hms].
+      destruct (redis_run_items (fst (rexec s (QHsetnxEnv id e))) its) as [s2 xs]. cbn [fst snd op_results] in *.
+      split; assumption.
 Qed.
 
 (* what wait() itself returns: the announcements in the order of the writes *)
@@ -781,11 +912,12 @@ Lemma redis_wait_fifo s x q :
   r_queue s = x :: q -> run rexec redis_wait s = (mkRedis (r_hashes s) q, RLoad [x]).
 Proof. intros E. cbn [redis_wait run rexec]. rewrite E. reflexivity. Qed.
 
-Lemma redis_write_announces s r e ts cands tmps id :
-  RRedis s r -> snd (redis_step s (OWrite e ts cands tmps)) = RId id ->
+Lemma redis_write_announces orph s r e ts cands tmps id :
+  RRedisO orph s r -> (forall c, In c cands -> alookup N.eqb orph c = None) ->
+  snd (redis_step s (OWrite e ts cands tmps)) = RId id ->
   r_queue (fst (redis_step s (OWrite e ts cands tmps))) = r_queue s ++ [(ts, id)].
 Proof.
-  intros H. unfold redis_step. cbn [redis_prog]. rewrite (r_write_run s r e ts cands H).
+  intros H Hav. unfold redis_step. cbn [redis_prog]. rewrite (r_write_run orph s r e ts cands H Hav).
   destruct (first_free r cands); cbn [fst snd r_queue]; [|discriminate]. intros E; inversion E; reflexivity.
 Qed.
 
@@ -1041,7 +1173,7 @@ Section DiskRefine.
         * intros c Hc. pose proof (rk_rep s r H c) as Hr. unfold disk_rep in Hr.
           destruct (rlookup r c) as [en|] eqn:Ec; [|exfalso; apply (Hpre c Hc Ec)].
           destruct Hr as (e' & m' & -> & _). discriminate.
-        * intros s2 A G1 G2 F1 F2. exists (RId id). split; [reflexivity|]. split; [|reflexivity].
+        * intros s2 A G1 G2 F1 F2. split; [exact Logic.I|]. exists (RId id). split; [reflexivity|]. split; [|reflexivity].
           cbn [fst]. eapply (RDisk_put s s2 r id e (mkMeta ts 0 None)); try eassumption.
           -- intros q [<-|[<-|[<-|[<-|[]]]]]; eauto.
           -- intros t [E|[E|[E|[E|[]]]]]; inversion E; subst; assumption.
@@ -1057,7 +1189,7 @@ Section DiskRefine.
       pose proof (rk_rep s r H id) as Hr. unfold disk_rep in Hr. rewrite E in Hr. destruct Hr as (e & m & He & Hm & Ha).
       apply (okrun_update enc_meta dec_meta chunk dec_enc_meta enc_meta_nonempty chunk_pos I B [] _ id (t :: tmps) t _ _ s m);
         try reflexivity; try exact Hm; try apply (rk_tmp s r H); try (intros; exact Logic.I).
-      intros s2 A G F. exists RUnit. split; [reflexivity|]. split; [|reflexivity]. cbn [fst].
+      intros s2 A G F. split; [exact Logic.I|]. exists RUnit. split; [reflexivity|]. split; [|reflexivity]. cbn [fst].
       eapply (RDisk_put s s2 r id e _ _ [PTmp t; PMeta id]); try eassumption.
       + intros q [<-|[<-|[]]]; eauto.
       + rewrite A; [exact He|]. intros [E'|[E'|[]]]; discriminate.
@@ -1072,7 +1204,7 @@ Section DiskRefine.
       destruct (accum_entry_fields _ _ _ _ _ Ha) as [Hts Hatt].
       apply (okrun_update enc_meta dec_meta chunk dec_enc_meta enc_meta_nonempty chunk_pos I B [] _ id (t :: tmps) t _ _ s m);
         try reflexivity; try exact Hm; try apply (rk_tmp s r H); try (intros; exact Logic.I).
-      intros s2 A G F. exists (RAtt (m_att m + 1)). split; [reflexivity|]. cbn [fst snd]. rewrite <- Hatt.
+      intros s2 A G F. split; [exact Logic.I|]. exists (RAtt (m_att m + 1)). split; [reflexivity|]. cbn [fst snd]. rewrite <- Hatt.
       split; [|reflexivity].
       eapply (RDisk_put s s2 r id e _ _ [PTmp t; PMeta id]); try eassumption.
       + intros q [<-|[<-|[]]]; eauto.
@@ -1088,7 +1220,7 @@ Section DiskRefine.
       destruct (accum_entry_fields _ _ _ _ _ Ha) as [Hts Hatt].
       apply (okrun_update enc_meta dec_meta chunk dec_enc_meta enc_meta_nonempty chunk_pos I B [] _ id (t :: tmps) t _ _ s m);
         try reflexivity; try exact Hm; try apply (rk_tmp s r H); try (intros; exact Logic.I).
-      intros s2 A G F. exists RUnit. split; [reflexivity|]. rewrite Hl. split; [|reflexivity]. cbn [fst].
+      intros s2 A G F. split; [exact Logic.I|]. exists RUnit. split; [reflexivity|]. rewrite Hl. split; [|reflexivity]. cbn [fst].
       eapply (RDisk_put s s2 r id e _ _ [PTmp t; PMeta id]); try eassumption.
       + intros q [<-|[<-|[]]]; eauto.
       + rewrite A; [exact He|]. intros [E'|[E'|[]]]; discriminate.
@@ -1460,14 +1592,14 @@ Section DiskFrame.
   Proof.
     induction fuel as [|f IH]; intros off rest Hp Ht Hk; cbn [write_loop].
     - eapply conf_do; [reflexivity|apply path_eqb_sub; exact Ht|]. intros a.
-      destruct (firstn chunk rest); [constructor|].
+      destruct (firstn chunk rest); [eapply conf_do; [reflexivity|apply path_eqb_sub; exact Ht|intros; constructor]|].
       destruct (skipn chunk rest); [|constructor].
-      eapply conf_do; [reflexivity| |intros; exact Hk].
+      eapply conf_do; [reflexivity| |intros; eapply conf_do; [reflexivity|apply path_eqb_sub; exact Ht|intros; exact Hk]].
       intros x Hx. apply orb_prop in Hx as [Hx|Hx]; [apply (path_eqb_sub F (PTmp t) Ht x Hx)|apply (path_eqb_sub F p Hp x Hx)].
     - eapply conf_do; [reflexivity|apply path_eqb_sub; exact Ht|]. intros a.
-      destruct (firstn chunk rest); [constructor|].
+      destruct (firstn chunk rest); [eapply conf_do; [reflexivity|apply path_eqb_sub; exact Ht|intros; constructor]|].
       destruct (skipn chunk rest); [|apply IH; assumption].
-      eapply conf_do; [reflexivity| |intros; exact Hk].
+      eapply conf_do; [reflexivity| |intros; eapply conf_do; [reflexivity|apply path_eqb_sub; exact Ht|intros; exact Hk]].
       intros x Hx. apply orb_prop in Hx as [Hx|Hx]; [apply (path_eqb_sub F (PTmp t) Ht x Hx)|apply (path_eqb_sub F p Hp x Hx)].
   Qed.
 
